@@ -189,6 +189,12 @@ def run_case(c):
         labels.append("ambiguous")
         # docs silent on who refuses what here; whatever the answer, it is a documented code
         _documented_code(mode, req, rep, line)
+        if spec.only_brothers_invalid(req, mode):
+            labels.append("only-brothers-invalid")
+            if rep["errorcode"] not in ({-205} | spec.GENERIC):
+                raise Violation("verdict:%s-for-invalid-brothers" % rep["errorcode"],
+                                "request %s -> %r; the blocks are in order, a brother is not a "
+                                "block header: the docs call that -205" % (line[:400], rep))
         return Out(labels, False)
     labels.append("verdict:%s" % verdict)
     if verdict not in al:
@@ -307,6 +313,16 @@ class PendingSingleMutations:
         return c
 
 
+MEMBER_NAMES = [("hash", "aa" * 32), ("tx", mw.NOMINAL_TX), ("input", 0),
+                ("sighashComputationMode", "legacy"), ("witnessScript", "5152"),
+                ("outpointValue", 1234), ("auth", {"receipt": "c3010203",
+                                                   "receipt_merkle_proof": ["aabb"]}),
+                ("receipt", "c3010203"), ("receipt_merkle_proof", ["aabb"]),
+                ("message", {"hash": "aa" * 32}), ("keyId", "m/44'/0'/0'/0/0"),
+                ("blocks", ["aa"]), ("brothers", [[]]), ("udValue", "11" * 16),
+                ("extra", "x")]
+
+
 class SingleMutations:
     """Complete enumeration of single mutations: every node of every documented request
     template (both modes) x {deleted, replaced by every value of its type-directed pool and of a
@@ -339,6 +355,14 @@ class SingleMutations:
                             continue
                         seen.append(v)
                         self.items.append((mode, name, p, "replace-" + kind, v, field))
+                    if type(cur) is dict:
+                        # a member the protocol knows from elsewhere (another command, the
+                        # other message format) added to this object, well-typed and not
+                        for nm, good in MEMBER_NAMES:
+                            if nm in cur:
+                                continue
+                            for v in (good, 123, None, True, [], {}, "zz"):
+                                self.items.append((mode, name, p, "addkey", [nm, v], field))
 
     def __len__(self):
         return len(self.items)
@@ -349,6 +373,11 @@ class SingleMutations:
         req = copy.deepcopy(pool[name])
         if kind == "delete":
             req = setp(req, list(p), None, delete=True)
+        elif kind == "addkey":
+            cur = req
+            for k in p:
+                cur = cur[k]
+            cur[v[0]] = copy.deepcopy(v[1])
         else:
             req = setp(req, list(p), copy.deepcopy(v))
         return {"mode": mode, "tpl": name, "muts": ["%s:%s" % (kind, field)], "req": req}
@@ -359,7 +388,8 @@ REQUIRED_LABELS = {
         "verdict:-904", "verdict:-101", "verdict:-102", "verdict:-103", "verdict:-204",
         "verdict:-205", "verdict:-301", "verdict:-2", "verdict:-666", "mut:delete",
         "mut:replace-int", "mut:replace-str", "mut:replace-list", "mut:replace-dict",
-        "mut:addkey", "ambiguous", "reconnection-pending", "after-the-nominal-request",
+        "mut:addkey", "ambiguous", "only-brothers-invalid", "reconnection-pending",
+        "after-the-nominal-request",
         "spelling:padded-3MiB", "spelling:escaped"] + ["tpl:" + n for n in TEMPLATES_V5]
     for t in ("quick", "thorough")}
 
